@@ -243,3 +243,33 @@ fn strlex_lit_step_cont_l3() { lit_step::<3>(true) }
 #[kani::proof]
 #[kani::stub(std::fmt::format, nofmt)]
 fn strlex_lit_step_cont0_l3() { lit_step_at::<3>(true, Some(0)) }
+
+/// C04, the one byte class the reference decoders leave open: a raw (unescaped) CR inside a literal string. ISO 32000 reads it as
+/// LF, this crate's reader keeps the byte -- and its writer emits CR raw.  Whatever the two sides choose, they must agree: IF
+/// `PdfString::serialize` writes the byte 0x0D raw, THEN one reader step at a raw CR -- from every position and nesting depth, with
+/// any byte following -- yields 0x0D and consumes exactly that byte (so CR and CR LF both read back as written).
+#[kani::proof]
+#[kani::stub(std::fmt::format, nofmt)]
+fn strlex_raw_cr_as_written() {
+    let ps = crate::primitive::PdfString::new([0x0du8][..].into());
+    let mut out: Vec<u8> = Vec::with_capacity(8);
+    let r = ps.serialize(&mut out);
+    assert!(r.is_ok());
+    std::mem::forget(r);
+    let writer_raw = out.len() == 3 && out[0] == b'(' && out[1] == 0x0d && out[2] == b')';
+    std::mem::forget(out); std::mem::forget(ps);
+
+    let buf: [u8; 3] = kani::any();
+    let pos: usize = kani::any();
+    let nested: i32 = kani::any();
+    kani::assume(pos < 3 && nested >= 0 && nested < 1000);
+    kani::assume(buf[pos] == b'\r');
+    let mut sl = StringLexer { pos, nested, buf: &buf };
+    let got = sl.next_lexeme();
+    if writer_raw {
+        assert!(matches!(&got, Ok(Some(0x0d))));
+        assert!(sl.get_offset() == pos + 1);
+        assert!(sl.nested == nested);
+    }
+    std::mem::forget(got);
+}
